@@ -58,9 +58,18 @@ def run_cases(ctx: Ctx, res: Result, cases, kind='RUN', want=('stack', 'cache', 
     lines, outs = [], []
     def work():
         for cfg, cache, script, _ in cases:
+            if len(lines) % 64 == 0 and ctx.expired():
+                break
             lines.append(vmrun.case_line('RUN', cfg, cache, [script]))
             outs.append(vmrun.run_impl(cfg, cache, script))
+            if outs[-1].startswith('ABORT'):
+                aborts[0] += 1
+                if aborts[0] >= 25:      # runaway implementation: enough evidence, stop burning the budget
+                    ctx.stopped_early = True
+                    break
+    aborts = [0]
     vmrun.in_big_thread(work)
+    cases = cases[:len(lines)]
     if not ctx.driver.available:
         res.disagreements.append({'driver': 'not built'})
         return [(c, None, o, None, 'no-driver') for c, o in zip(cases, outs)]
